@@ -58,6 +58,7 @@ type AbsfsNFS struct {
 	metrics          *MetricsCollector       // Metrics collection and reporting
 	rateLimiter      *RateLimiter            // Rate limiter for DoS protection
 	exportServer     *Server                 // Server created by Export(), nil if not exported
+	exportMu         sync.Mutex              // guards exportServer: Export, Unexport and Close may be called concurrently
 
 	// Options are stored as immutable snapshots behind atomic pointers.
 	// Readers load the pointer -- no lock needed.
